@@ -263,6 +263,15 @@ def generate_simple_plan(
     if stop_revid is not None and stop_revid not in todo_set:
         raise AssertionError(f"invalid stop_revid {stop_revid}")
     replace_map = {}
+    # Merges dropped because of skip_full_merged -> the revision that takes
+    # their place (their only new parent)
+    skipped = {}
+
+    def rewritten(revid):
+        if revid in replace_map:
+            return replace_map[revid][0]
+        return skipped.get(revid)
+
     parent_map = graph.get_parent_map(todo_set)
     order = topo_sort(parent_map)
     if stop_revid is None:
@@ -285,8 +294,8 @@ def generate_simple_plan(
         # Left parent:
         if heads_cache.heads((oldparents[0], onto_revid)) == {onto_revid}:
             parents.append(onto_revid)
-        elif oldparents[0] in replace_map:
-            parents.append(replace_map[oldparents[0]][0])
+        elif rewritten(oldparents[0]) is not None:
+            parents.append(rewritten(oldparents[0]))
         else:
             parents.append(onto_revid)
             parents.append(oldparents[0])
@@ -297,15 +306,19 @@ def generate_simple_plan(
                 if oldparent in additional_parents:
                     if heads_cache.heads((oldparent, onto_revid)) == {onto_revid}:
                         pass
-                    elif oldparent in replace_map:
-                        newparent = replace_map[oldparent][0]
-                        if parents[0] == onto_revid:
+                    elif rewritten(oldparent) is not None:
+                        newparent = rewritten(oldparent)
+                        if newparent == onto_revid or newparent in parents:
+                            # what replaces a dropped merge is there already
+                            pass
+                        elif parents[0] == onto_revid:
                             parents[0] = newparent
                         else:
                             parents.append(newparent)
                     else:
                         parents.append(oldparent)
             if len(parents) == 1 and skip_full_merged:
+                skipped[oldrevid] = parents[0]
                 continue
         parents = tuple(parents)
         newrevid = generate_revid(oldrevid, parents)
